@@ -109,7 +109,20 @@ def main():
             return setup()
         if args.prop not in PROPS:
             ap.error("unknown property")
-        return run_check(args.prop, args.tier, seed, args.replay)
+        try:
+            return run_check(args.prop, args.tier, seed, args.replay)
+        except Exception:  # the harness itself failed: the property is not shown to hold on this tree
+            import traceback
+            tb = traceback.format_exc()
+            res = common.Result(args.prop, args.tier, seed)
+            res.t0 = T0
+            res.violation({"property": args.prop, "kind": "harness-exception",
+                           "what": "the check could not complete on this tree (an observation the harness relies on raised); "
+                                   "no theorem or correspondence result was obtained", "traceback": tb[-4000:]}, no_input=True)
+            res.count("harness-exception")
+            res.count("harness-exception-2")
+            sys.stderr.write(tb)
+            return common.finish(res, None)
     finally:
         common.cleanup_work()
 
